@@ -471,8 +471,8 @@ NOT_CLAIMED = {p: "monitor not built yet in this round (design in DESIGN.md sect
 # The tables were sized while the monitors were being written; measured on 16 idle cores the quick tier then took 1-30 s and the
 # thorough tier 20-130 s per property, so both are scaled up: quick stays a check one runs on every change (under a minute),
 # thorough is the deep run (several minutes per property).  Enumerated scopes (grids, sweeps, exhaustive histories) are not scaled.
-QUICK_SCALE = {"C01": 4, "C02": 3, "C03": 5, "C04": 3, "C05": 4, "C06": 4, "C07": 3, "C08": 5, "C09": 5, "C11": 5, "C12": 5, "C13": 2, "C14": 4,
-               "C18": 3, "C19": 5, "C20": 4}
+QUICK_SCALE = {"C01": 5, "C02": 3, "C03": 10, "C04": 3, "C05": 5, "C06": 8, "C07": 8, "C08": 10, "C09": 6, "C11": 5, "C12": 5, "C13": 2, "C14": 5,
+               "C18": 6, "C19": 10, "C20": 5}
 THOROUGH_SCALE = {"C01": 3, "C03": 4, "C04": 3, "C05": 3, "C06": 4, "C07": 6, "C08": 5, "C09": 4, "C11": 2, "C12": 3, "C13": 8, "C14": 3, "C18": 4, "C19": 6, "C20": 3}
 _ENUMERATED = ("exhaustive", "grid", "alpha-sweep")
 for _p, _spec in PROPS.items():
